@@ -1,7 +1,8 @@
 # -*- coding: utf-8 -*-
 """Input variants of corpus files (derived from the file path only, so that they are the same in every tier):
  pre      : '#ifdef' / '#endif' preprocessor lines followed by blank lines, before seeded lines
- comments : comments appended to line ends and inserted on their own lines (incl. pragma-like and delimited)"""
+ comments : comments appended to line ends and inserted on their own lines (incl. pragma-like and delimited)
+ split    : lines broken in front of an operator or an opening parenthesis, the continuation starting at column 0 or indented"""
 import hashlib
 import random
 
@@ -36,4 +37,25 @@ def make(path, kind):
             else:
                 out.insert(i, r.choice(["-- own line comment %d" % k, "    --indented comment", "-- synthesis translate_off", "-- synthesis translate_on"]))
         return out
+    if kind == "split":
+        import re
+
+        n = 0
+        res = []
+        for l in out:
+            code = l.split("--")[0]
+            if n < max(2, len(out) // 10) and '"' not in l and "'" not in code.replace("'0'", "").replace("'1'", "") and not l.lstrip().startswith("#") and "/*" not in l and "*/" not in l:
+                m = None
+                for mm in re.finditer(r"(?<=\w) (&|and|or|\+|-) (?=\w)|(?<=\w) ?(\() ?(?=\w)", code):
+                    if r.random() < 0.5:
+                        m = mm
+                        break
+                if m is not None and code.strip() and not code.lstrip().lower().startswith(("end", "library", "use")):
+                    ind = r.choice(["", "", "    "])
+                    res.append(l[: m.start()])
+                    res.append(ind + l[m.start() :].lstrip())
+                    n += 1
+                    continue
+            res.append(l)
+        return res if n else None
     return None
